@@ -225,6 +225,42 @@ def run_one(ctx, rng, fn, kind, impl, mode, ml, mi, calls, cuts, order, seed):
     return steps, nontrivial
 
 
+def mutable_values(ctx):
+    """object values changed IN PLACE and stored again under the same key: the re-assignment is a modification
+    and must be announced (the value object is the same, its contents are not)"""
+    from harness.families import fam
+    n = 0
+    for fn in ("OO", "IO", "LO", "UO", "QO"):
+        f = fam(fn)
+        for impl in ("C", "Py"):
+            for kind in ("BTree", "Bucket"):
+                env = TreeEnv(fn, kind, impl, "int" if fn[0] == "O" else None)
+                with env.sized(2, 2):
+                    st = Storage()
+                    jar = Jar(st)
+                    t = env.new()
+                    root = jar.add(t)
+                    vals = {k: [k] for k in range(7)}
+                    for k, v in vals.items():
+                        t[env.k(k)] = v
+                    jar.commit()
+                    bad = None
+                    for k in (0, 3, 6):
+                        v = t[env.k(k)]
+                        v.append("changed")
+                        t[env.k(k)] = v                 # the same object again
+                        registered = len(jar.registered)
+                        jar.commit()
+                        seen = Jar(st).get(root)[env.k(k)]
+                        if seen != v and bad is None:
+                            bad = "key %d: the writer stored %r again after changing it in place (%d object(s) registered), a fresh reader sees %r" % (k, v, registered, seen)
+                    n += 1
+                    ctx.count(("mutable-value", fn, impl, kind))
+                    if bad:
+                        ctx.oracle_failure("%s:%s:same-object-reassigned-not-stored" % (impl, kind), "%s%s/%s: %s" % (fn, kind, impl, bad), {"family": fn, "kind": kind, "impl": impl})
+    ctx.cov["mutable_value_reassignments"] = n
+
+
 def descent_all(env, t):
     """all items reachable by descent on a loaded tree (independent of the chain)"""
     out = []
@@ -322,6 +358,7 @@ def run(ctx):
             ncommits += sum(1 for v in cuts.values() if v == "commit")
         if len(ctx.samples) < 2 and len(calls) < 15:
             ctx.sample({"family": fn, "kind": kind, "sizes": [ml, mi], "order": order, "calls": [list(map(str, c)) for c in calls], "cuts": {str(k): v for k, v in cuts.items()}})
+    mutable_values(ctx)
     total, bad, errs = caseutil.eval_cases("c04", HDR, "pcase_ok", terms, shard=30, ctype="wpcase")
     ctx.traces = total
     for e in errs:
